@@ -19,9 +19,9 @@ import (
 )
 
 type C19Up struct {
-	AdvHours int    // hours the clock advances before this upload is created
-	Kinds    []int  // one record per entry, labelled kind:<k>
-	Commit   bool   // false: aborted (must never be listed)
+	AdvHours int   // hours the clock advances before this upload is created
+	Kinds    []int // one record per entry, labelled kind:<k>
+	Commit   bool  // false: aborted (must never be listed)
 }
 
 type C19ListCase struct {
